@@ -80,6 +80,7 @@ func world(c cfg) (*chain.World, chain.GenesisOpts) {
 	switch c.kind {
 	case "unstakequeue":
 		o.ValidatorStake = 2 * w.MinStake // a slashed validator stays above the minimum stake (no force-unstake)
+		o.MaxValidators = 5               // all five nodes are consensus validators: four of them leave the set in ONE block
 		o.Mutate = func(g *chain.Genesis) { g.Nodes.Params.SessionBlockFrequency = 4 }
 	case "genesismaps":
 		o.Mutate = func(g *chain.Genesis) {
@@ -403,7 +404,16 @@ func main() {
 	wg.Wait()
 	for i, c := range cfgs {
 		os.Remove(fmt.Sprintf("%s.h%d.json", *out, i))
-		t.Line("hist", false, "hist %d %s %d %d", i, c.kind, c.hseed, c.blocks)
+		lv := "-"
+		if c.kind == "unstakequeue" { // the validators that leave the staked set together (public keys as in ValidatorUpdate)
+			w, _ := world(c)
+			var ps []string
+			for _, k := range []chain.Key{w.Servs[0], w.Servs[1], w.Vals[1], w.Vals[2]} {
+				ps = append(ps, hex.EncodeToString(k.Pub.RawBytes()))
+			}
+			lv = strings.Join(ps, ",")
+		}
+		t.Line("hist", false, "hist %d %s %d %d leavers=%s", i, c.kind, c.hseed, c.blocks, lv)
 		for rep := 0; rep < *repeats; rep++ {
 			if results[i].errs[rep] != nil {
 				t.Line("crash", false, "crash %d %d => %s", i, rep, strings.ReplaceAll(results[i].errs[rep].Error(), "\n", " | "))
